@@ -117,7 +117,9 @@ def execute_tasks_h5(
                     dump(file_name=file_name, data_dict=data_dict)
                     if not disable_dependencies:
                         task_dependent_lst = [
-                            process_dict[k] for k in future_wait_key_lst
+                            process_dict[k]
+                            for k in future_wait_key_lst
+                            if k in process_dict
                         ]
                     else:
                         if len(future_wait_key_lst) > 0:
